@@ -718,3 +718,11 @@ var orderNeutral = map[string]string{
 	"(*coreV2/state/swap.SwapV2).immutableTree":                   "returns the current immutable tree handle",
 	"(*coreV2/state/swap.Swap).immutableTree":                     "returns the current immutable tree handle",
 }
+
+// posOrEnd: a position for messages; an implicit return has none.
+func posOrEnd(c *core.Ctx, p token.Pos) string {
+	if s := c.PosStr(p); s != "" {
+		return s
+	}
+	return "the end of the function"
+}
